@@ -52,10 +52,13 @@ class Recorder:
         async def outer(*args, **kwargs):
             _INSIDE.set(True)
             key = args[0] if args else kwargs.get("key")
-            entry = {"op": name, "id": getattr(key, "id_", None), "args": args, "kwargs": kwargs, "done": False}
+            lp = asyncio.get_running_loop()
+            entry = {"op": name, "id": getattr(key, "id_", None), "args": args, "kwargs": kwargs, "done": False,
+                     "iter_start": getattr(lp, "iters", None), "iter_done": None}
             rec.calls.append(entry)
             r = await orig(*args, **kwargs)
             entry["done"] = True
+            entry["iter_done"] = getattr(lp, "iters", None)
             return r
 
         inner.__name__ = name
